@@ -489,7 +489,12 @@ class PE(object):
       else:
         fr_[target.id] = val
     elif isinstance(target, (ast.Tuple, ast.List)):
-      vals = list(self.iterate(val))
+      if isinstance(val, Tensor):
+        # unpacking an (uninterpreted) tensor-valued result: its components
+        vals = [Tensor(("app", "item", (i,), (val.term,)), None)
+                for i in range(len(target.elts))]
+      else:
+        vals = list(self.iterate(val))
       if len(vals) != len(target.elts):
         self.err("unpack arity mismatch", target)
       for t, v in zip(target.elts, vals):
@@ -563,6 +568,8 @@ class PE(object):
         # external base (tf.Module, ...) : no-op callable
         if name in ("__init__",):
           return Ext("<external-super>.__init__")
+        if getattr(self, "opaque_ext", False):
+          return Ext("super." + name)
         raise PyRaise("AttributeError", "super() has no attribute %s" % name)
       f = Func(fn, owner.module, [], owner.name + "." + name, obj.obj, owner)
       if name in owner.properties:
@@ -716,6 +723,13 @@ class PE(object):
 
   def eval_Subscript(self, node, frames, module):
     obj = self.eval(node.value, frames, module)
+    if isinstance(node.slice, ast.Tuple) and any(
+        isinstance(e, ast.Slice) for e in node.slice.elts):
+      if isinstance(obj, Tensor):
+        return Tensor(self.note_loc(("app", "slice",
+                                     (ast.unparse(node.slice),),
+                                     (obj.term,))), None)
+      self.err("multi-dimensional slice of %r" % (obj,), node)
     if isinstance(node.slice, ast.Slice):
       lo = self.eval(node.slice.lower, frames, module) \
           if node.slice.lower else None
@@ -894,7 +908,7 @@ class PE(object):
       if self.fork is not None:
         return self.fork.decide(v.term)
       self.err("tensor used as python condition", node)
-    if isinstance(v, (Obj, Func, ClassRef, Ext)):
+    if isinstance(v, (Obj, Func, ClassRef, Ext, Mock)):
       return True
     if isinstance(v, Opaque):
       if v.desc == "match":
@@ -1111,6 +1125,8 @@ class PE(object):
     if callable(fn) and not isinstance(fn, (Func, ClassRef, Ext, BoundPrim,
                                             Obj, Mock)):
       return fn(self, args, kwargs)
+    if isinstance(fn, Mock) and "__call__" in fn.attrs:
+      return fn.attrs["__call__"](self, args, kwargs)
     if isinstance(fn, Obj):
       owner, f = fn.cls.find_method("__call__")
       if f is None:
@@ -1210,6 +1226,8 @@ class PE(object):
         return None
       if n == "as_list":
         return list(r.shape or ())
+      if n == "get_shape":
+        return ShapeV(r.shape or ())
       self.err("tensor method %s" % n, node)
     if isinstance(r, ShapeV):
       if n == "as_list":
